@@ -194,6 +194,20 @@ impl<'a> FnTr<'a> {
                 if self.reg.enums.contains_key(&name) || self.reg.structs.contains_key(&name) {
                     return Ok(Ty::Named(name));
                 }
+                // builder N: a `type NAME = T;` of the unit's files
+                if tp.path.segments.len() == 1 {
+                    if let Some(files) = self.reg.files.clone() {
+                        for f in files.iter() {
+                            for it in &f.items {
+                                if let Item::Type(ta) = it {
+                                    if ta.ident == name && ta.generics.params.is_empty() {
+                                        return self.ty(&ta.ty);
+                                    }
+                                }
+                            }
+                        }
+                    }
+                }
                 Err(format!("unknown type {}", name))
             }
             Type::Reference(r) => self.ty(&r.elem),
@@ -416,6 +430,23 @@ impl<'a> FnTr<'a> {
                             let then_seq = self.block_tail(&ei.then_branch.stmts, &mut env_t)?;
                             let rest = self.block_tail(&stmts[i + 1..], env)?;
                             return Ok(Seq { stmts: st, tail: Tail::If(c, Box::new(then_seq), Box::new(rest)) });
+                        }
+                        // builder N: assignment through an index, `place[i] = v` (out of bounds: a panic)
+                        Expr::Assign(a) if matches!(&*a.left, Expr::Index(_)) => {
+                            let ix = match &*a.left {
+                                Expr::Index(ix) => ix,
+                                _ => unreachable!(),
+                            };
+                            let (root, fields, pty) = self.place(&ix.expr, env)?;
+                            let el = match &pty {
+                                Ty::Arr(el) => (**el).clone(),
+                                _ => return Err("index assignment on a non-array".into()),
+                            };
+                            let (base, _) = self.ex(&ix.expr, env, &mut st, None)?;
+                            let (i, _) = self.ex(&ix.index, env, &mut st, Some(Ty::Int("usize")))?;
+                            let (v, _) = self.ex(&a.right, env, &mut st, Some(el))?;
+                            let t = self.act(&mut st, format!("Rt.setIdx {} {} {}", paren(&base), paren(&i), paren(&v)));
+                            st.push((lean_ident(&root), Rhs::Pure(update_term(&lean_ident(&root), &fields, &t))));
                         }
                         // builder L: assignment to a field (chain) of a variable / through a `&mut` parameter
                         Expr::Assign(a) if !matches!(&*a.left, Expr::Path(_)) => {
@@ -2032,6 +2063,42 @@ impl<'a> FnTr<'a> {
                     return Ok(("true".into(), Ty::Bool));
                 }
                 return Ok((format!("decide ({})", parts.join(" ∧ ")), Ty::Bool));
+            }
+        }
+        // builder N: `(a..=b).all(|c| body)` on an integer range; the body may panic (`Rt.rangeAllM`)
+        if name == "all" && m.args.len() == 1 {
+            let mut recv = &*m.receiver;
+            while let Expr::Paren(p) = recv {
+                recv = &p.expr;
+            }
+            if let (Expr::Range(r), Expr::Closure(cl)) = (recv, &m.args[0]) {
+                if let (Some(lo), Some(hi), RangeLimits::Closed(_), 1) = (&r.start, &r.end, &r.limits, cl.inputs.len()) {
+                    let (a, ta) = self.ex(lo, env, st, None)?;
+                    let ity = match &ta {
+                        Ty::Int(_) => ta.clone(),
+                        _ => return Err("range all: the bounds are not typed integers".into()),
+                    };
+                    let (b, tb) = self.ex(hi, env, st, Some(ity.clone()))?;
+                    unify(&ta, &tb)?;
+                    let mut env_c = env.clone();
+                    let pn = self.pat(&cl.inputs[0], &ity, &mut env_c)?;
+                    let mut cst = vec![];
+                    let (ct, cty) = self.ex(&cl.body, &mut env_c, &mut cst, Some(Ty::Bool))?;
+                    if cty != Ty::Bool {
+                        return Err("range all: closure body is not bool".into());
+                    }
+                    let seq = Seq { stmts: cst, tail: Tail::Val(ct) };
+                    let mut body = String::new();
+                    if seq.fallible() {
+                        render_m(&seq, 2, &mut body);
+                    } else {
+                        body.push_str("some (");
+                        render_p(&seq, 2, &mut body);
+                        body.push(')');
+                    }
+                    let t = self.act(st, format!("Rt.rangeAllM {} {} (fun {} => {})", paren(&a), paren(&b), pn, body));
+                    return Ok((t, Ty::Bool));
+                }
             }
         }
         let (r, tr) = self.ex(&m.receiver, env, st, None)?;
